@@ -15,7 +15,7 @@ import (
 
 func init() {
 	suites["aside"] = suite{
-		rule: "C39: (1) script-level: acquireLock / setkey / delkey on the fake with own, foreign and missing placeholders and values vs the Lean script models; (2) end-to-end episodes: real rueidisaside clients (UseLuaLock on/off, typed client wrapper) over the fake server with client-side caching and invalidation pushes; concurrent Gets (goroutines) of up to three clients on one key with harness-controlled loaders (success, failure, values carrying the placeholder prefix), two concurrent first Gets of a fresh client with the first liveness-marker SET held back while another client checks the holder's liveness (`fresh-race`), two live clients releasing the same dead holder's lock with the second release delayed until the first client is loading (`dead-race`, ordered by gates; the release must be the delkey script on the placeholder value, never a plain DEL), a read/finish race (`get-race`: the holder stores its value exactly between a waiter's read of the placeholder and the waiter's next action, ordered by a hook in the fake), Del, key expiry, foreign writes, client death (liveness key expiry) and refresh, context cancellation of parked Gets; after every event the system runs to quiescence and the anonymous state (key kind, loading/parked counts, sorted results, loader count) is compared with the Lean automaton run to quiescence; '!results' oracle lines are judged by the specification (every returned value is a loader output or a stored value and never a placeholder); the harness itself flags two simultaneous loaders, placeholder leaks and lost wake-ups (a Get still parked when the key no longer holds a placeholder); non-trivial = distinct op within its episode prefix",
+		rule: "C39: (1) script-level: acquireLock / setkey / delkey on the fake with own, foreign and missing placeholders and values vs the Lean script models; (2) end-to-end episodes: real rueidisaside clients (UseLuaLock on/off, typed client wrapper) over the fake server with client-side caching and invalidation pushes; concurrent Gets (goroutines) of up to three clients on one key with harness-controlled loaders (success, failure, success followed by a failing store of the value, values carrying the placeholder prefix), two concurrent first Gets of a fresh client with the first liveness-marker SET held back while another client checks the holder's liveness (`fresh-race`), two live clients releasing the same dead holder's lock with the second release delayed until the first client is loading (`dead-race`, ordered by gates; the release must be the delkey script on the placeholder value, never a plain DEL), a read/finish race (`get-race`: the holder stores its value exactly between a waiter's read of the placeholder and the waiter's next action, ordered by a hook in the fake), Del, key expiry, foreign writes, client death (liveness key expiry) and refresh, context cancellation of parked Gets; after every event the system runs to quiescence and the anonymous state (key kind, loading/parked counts, sorted results, loader count) is compared with the Lean automaton run to quiescence; '!results' oracle lines are judged by the specification (every returned value is a loader output or a stored value and never a placeholder); the harness itself flags two simultaneous loaders, placeholder leaks and lost wake-ups (a Get still parked when the key no longer holds a placeholder); non-trivial = distinct op within its episode prefix",
 		run:  runAside,
 		replay: func(c *Ctx, lines []string) {
 			ep := &asEp{}
@@ -171,6 +171,28 @@ func (e *asEp) judge(c *Ctx, line string) {
 	for _, g := range e.gets {
 		if !g.done && !g.loading {
 			parked++
+		}
+	}
+	if locked {
+		// whose placeholder is it? a live client (its liveness key exists) none of whose Gets is in its loader
+		// has left the lock behind
+		e.srv.mu.Lock()
+		owner := -1
+		for conn, ids := range e.srv.owner {
+			for _, id := range ids {
+				if id == kv.s {
+					owner = conn - 1
+				}
+			}
+		}
+		alive := e.srv.keys[kv.s] != nil
+		e.srv.mu.Unlock()
+		busy := false
+		for _, g := range e.gets {
+			busy = busy || (g.client == owner && g.loading)
+		}
+		if owner >= 0 && alive && !busy {
+			c.Fail("aside:placeholder-left-after-failed-store", line, fmt.Sprintf("the key still holds the lock placeholder of client %d, which is alive and runs no loader: its Get returned without storing a value or giving the lock back", owner))
 		}
 	}
 	if parked > 0 && !locked {
@@ -468,9 +490,23 @@ func (e *asEp) op(c *Ctx, line string) {
 		e.judge(c, line)
 		c.Hit("dead-race:" + strings.Join(rel, ","))
 		c.Emit(line, "release="+strings.Join(rel, ",")+" "+e.state(), true)
-	case "load-ok", "load-err":
-		if w[0] == "load-err" {
+	case "load-ok", "load-err", "load-ok-storefail":
+		if w[0] != "load-ok" {
 			e.contested = true
+		}
+		if w[0] == "load-ok-storefail" {
+			// the loader succeeds, the setkey script call that follows never reaches the server (connection lost /
+			// context done while the loader ran): Get must give the lock back
+			armed := true
+			e.srv.fault = func(cl *fakeClient, cmd []string) int {
+				if armed && len(cmd) > 3 && strings.HasPrefix(strings.ToUpper(cmd[0]), "EVAL") && cmd[3] == asKey &&
+					(cmd[1] == "3913f9de2aab2b98021c6f9b04f7293af86e2c61" || strings.Contains(cmd[1], `"SET",KEYS[1],ARGV[2]`)) {
+					armed = false
+					return 1
+				}
+				return 0
+			}
+			defer func() { e.srv.fault = nil }()
 		}
 		e.mu.Lock()
 		var g *asGet
@@ -488,7 +524,7 @@ func (e *asEp) op(c *Ctx, line string) {
 			c.Emit(line, "no-loader", false)
 			return
 		}
-		if w[0] == "load-ok" {
+		if w[0] == "load-ok" || w[0] == "load-ok-storefail" {
 			g.release <- loadRes{val: unhx(w[1])}
 		} else {
 			g.release <- loadRes{err: errors.New("loader failed")}
@@ -605,6 +641,8 @@ func runAside(c *Ctx) {
 		{"reset lua=0", "put " + hx("stored"), "get 0", "get 1", "del", "get 0", "load-ok " + hx("rueidisid:user"), "load-ok " + hx("ok"), "!results"},
 		{"reset lua=1 typed=1", "get 0", "get 1", "load-ok " + hx("t"), "!results"},
 		{"reset lua=0", "get 0", "get-race 1 " + hx("raced"), "!results", "get 2"},
+		{"reset lua=0", "get 0", "get 1", "load-ok-storefail " + hx("lost"), "load-ok " + hx("v"), "get 2", "!results"},
+		{"reset lua=1", "get 2", "load-ok-storefail " + hx("lost2"), "get 0", "load-ok " + hx("w"), "!results"},
 		{"reset lua=0", "fresh-race 0 1", "load-ok " + hx("f1"), "!results"},
 		{"reset lua=1", "fresh-race 2 0", "get 1", "load-ok " + hx("f2"), "!results"},
 		{"reset lua=0", "get 0", "death 0", "dead-race 1 2", "load-ok " + hx("a"), "load-ok " + hx("b"), "!results"},
@@ -669,7 +707,11 @@ func runAside(c *Ctx) {
 				}
 			case x == 8:
 				if loading > 0 {
-					ep.op(c, "load-err")
+					if r.IntN(2) == 0 {
+						ep.op(c, "load-err")
+					} else {
+						ep.op(c, "load-ok-storefail "+hx(vals[r.IntN(4)]))
+					}
 				}
 			case x == 9:
 				ep.op(c, "del")
